@@ -91,6 +91,11 @@ def run(ids, tier):
         meta = json.load(open(os.path.join(d, "meta.json")))
         prop = meta["breaks_property"]
         extra = meta.get("also_run", [])
+        # the evidence files belong to runs on the unchanged tree: keep them out of harm's way
+        saved = {}
+        for p in [prop] + extra:
+            ev = os.path.join(VERIF, "evidence", p + ".json")
+            saved[ev] = open(ev).read() if os.path.exists(ev) else None
         try:
             rc, out = sh(["git", "-C", "/repo", "apply", os.path.join(d, "patch.diff")])
             assert rc == 0, out
@@ -102,6 +107,12 @@ def run(ids, tier):
                 results[p] = {"rc": rc, "violations": vio[:5], "summary": [l for l in out.split("\n") if l.startswith(p + " ")][:1], "wall_s": round(time.time() - t0, 1)}
         finally:
             sh(["git", "-C", "/repo", "checkout", "--", "."])
+            for ev, text in saved.items():
+                if text is None:
+                    if os.path.exists(ev):
+                        os.remove(ev)
+                else:
+                    open(ev, "w").write(text)
         caught = results[prop]["rc"] == 1 and bool(results[prop]["violations"])
         concrete = caught and any("no-failing-input-found" not in v for v in results[prop]["violations"])
         res = {"seed_id": sid, "property": prop, "tier": tier, "caught": caught, "with_concrete_failing_input": concrete, "checks": results,
